@@ -60,6 +60,7 @@ type caseCfg struct {
 	port     int
 	badInfo  bool // the "metadata" is not a valid info dictionary (authentic but unparsable)
 	metaGe   bool // cosmetic: what the model is told about the gotMetadata guard
+	e2e      int  // end-to-end scenario with this many slow Cancels (not part of the token: replays carry the op)
 	burst    int  // length of the burst sent while the torrent is not reading (not part of the token: replays carry the ops)
 	bigTor   bool
 }
@@ -102,6 +103,13 @@ var hangs int
 func (w *world) emit(op, obs string) {
 	if !w.quiet {
 		w.c.Emit(op, obs)
+		return
+	}
+	if w.recOps {
+		switch strings.SplitN(op, " ", 2)[0] {
+		case "msg", "pev", "sched", "tick":
+			w.rec = append(w.rec, op)
+		}
 	}
 }
 func (w *world) count(tag, key string, nt bool) {
@@ -112,7 +120,9 @@ func (w *world) count(tag, key string, nt bool) {
 func (w *world) violate(kind, detail string, ops []string) {
 	if !w.quiet {
 		w.c.Violate(kind, detail, ops)
+		return
 	}
+	w.quietViol = append(w.quietViol, [2]string{kind, detail})
 }
 
 // guarded runs one call of the real code under recover and a watchdog; hung = it did not
@@ -159,6 +169,9 @@ type world struct {
 	twin       bool
 	quiet      bool // a twin rebuilt by replay: nothing is emitted, counted or reported
 	poisoned   bool // a call of the real code never returned; the world is abandoned
+	recOps     bool // (quiet worlds) record the explicit ops executed from now on
+	rec        []string
+	quietViol  [][2]string
 	withhold   bool // the torrent is not reading: emitted events stay in its channel / the overflow list
 	held       []heldOp
 	pendingEv  int      // events emitted while withholding, not yet attributed
@@ -874,6 +887,14 @@ func (w *world) runPeer(kind string, opText string, wire int, m protocol.Message
 	// counter is meaningless from then on)
 	if kind == "msg" && acc.alloc > bound && hangs == 0 {
 		w.violate("alloc:"+name+":"+infoTok(w), fmt.Sprintf("%d bytes allocated for a %d-byte message (bound %d): %s", acc.alloc, acc.wire, bound, clip(opText)), w.c.Case())
+	}
+	// the torrent's own commands: proportional to the command and the state it touches,
+	// never to a number the remote chose earlier (reqq, an index, ...)
+	if (kind == "pev" || kind == "pevt") && hangs == 0 {
+		pb := uint64(allocSlack) + 2*uint64(w.t.Pieces.PieceSize()) + touched + indexFactor*nmax + 1024*uint64(strings.Count(opText, ",")+1)
+		if acc.alloc > pb {
+			w.violate("alloc:pev:"+name+":"+infoTok(w), fmt.Sprintf("%d bytes allocated while handling the torrent's command %s (bound %d)", acc.alloc, clip(opText), pb), w.c.Case())
+		}
 	}
 	w.syncLevel()
 }
